@@ -426,6 +426,17 @@ theorem templated_fresh_is_template {V} (t : Tmpl V) (ext : Bool) (hn : (keysOf 
     o.absSym t = t.syms ∧ o.WF t ∧ ∀ k, lookup (o.absStr t) k = lookup t.strs k :=
   fresh_abs t ext hn
 
+/-- Over ARBITRARY histories of own-property operations (string / symbol defines, deletes, symbol stores) a lazily-templated
+built-in equals, at every moment, the eager ordinary object that had all template properties from the start. -/
+theorem templated_histories_refine_eager {V} [DecidableEq V] (undef : V) (t : Tmpl V) (ops : List (TOp V)) (ext : Bool)
+    (hn : (keysOf t.strs).Nodup) :
+    let o : TObj V := { values := [], propNames := none, symValues := none, ext := ext }
+    (ops.foldl (TObj.step undef t) o).absE t = ops.foldl (Eager.step undef) (o.absE t)
+    ∧ (o.absE t).syms = t.syms ∧ ∀ k, lookup (o.absE t).strs k = lookup t.strs k := by
+  intro o
+  obtain ⟨h1, h2, h3⟩ := fresh_abs t ext hn
+  exact ⟨(run_refines undef t ops o h2).1, h1, h3⟩
+
 /-- the seeded change C04-m2 as a definition: materialise the symbols only when the key is a template symbol -/
 def defineSymM2 {V} [DecidableEq V] (undef : V) (t : Tmpl V) (o : TObj V) (s : Key) (d : Desc V) : TObj V × Bool :=
   let syms := if o.symValues.isNone && (lookup t.syms s).isSome then t.syms else o.symValues.getD []
